@@ -36,6 +36,16 @@ def step (σ : St) (op obs : List String) : St × List Msg :=
     (σ, verdict "mutesI_next_call_exact" after active alert
         ++ (if during = "1" ∧ ¬ bf then [Msg.propfail "mutes_interleaved_bracket" "verdict" s!"raced call answers true, nothing active matches {alert}"] else [])
         ++ [.tag (if during = "1" then "race:set-seen-by-raced-call" else "race:set-behind-raced-call")])
+  | ["mergerace", _, _], [final, s0, bu, eu] =>
+    -- three versions of the raced id: stored (update time s0), the batch's edit (bu > s0), the API expiry (eu > bu):
+    -- AM.Silence.newest_wins / merge_monotone — the id holds the expiry whatever the interleaving
+    let ok : Bool := match final.splitOn "," with
+      | [_, st] => st == "expired"
+      | _ => false
+    (σ, (if toInt! s0 < toInt! bu ∧ toInt! bu < toInt! eu then [] else [.diff "mergerace.order" "stored < batch < expiry" s!"{s0} {bu} {eu}"])
+        ++ (if ok then [] else [Msg.propfail "merge_monotone" "merge-overwrites-concurrent-newer"
+              s!"the id holds {final} (update time relative to the stored version) after a Merge of an older edit (+{bu}) raced an API expiry (+{eu}): the merged older version replaced the newer one"])
+        ++ [.tag "mergerace"])
   | ["quiet", _], [after, active, alert] =>
     (σ, verdict "mutes_eq_bruteforce" after active alert ++ [.tag "quiet"])
   | _, _ => (σ, [.diff "parse" "?" (" ".intercalate op)])
